@@ -23,12 +23,13 @@ def segment_dfts(x, starts, L, w, omega, order):
     starts = np.asarray(starts, dtype=np.int64)
     n = np.arange(L)
     idx = starts[:, None] + n[None, :]
-    seg = x[idx].astype(np.longdouble)
+    ft = np.longdouble if idx.size <= 300000 else np.float64   # extended precision where affordable
+    seg = x[idx].astype(ft)
     if order >= 0:
-        Q = detrend_matrix(L, order).astype(np.longdouble)
+        Q = detrend_matrix(L, order).astype(ft)
         seg = seg - (seg @ Q) @ Q.T
-    ph = (omega * n.astype(np.longdouble))
-    wl = np.asarray(w, dtype=np.longdouble)
+    ph = (ft(omega) * n.astype(ft))
+    wl = np.asarray(w, dtype=ft)
     sw = seg * wl[None, :]
     re = sw @ np.cos(ph)
     im = -(sw @ np.sin(ph))
